@@ -114,7 +114,7 @@ def main():
                             anyc = ctx.ca
                             neww = (max(env['old_worlds']) + 1) if env['old_worlds'] else 0
                             def wv(t):
-                                return {None: None, 'same': w0, 'new': neww, 'acc': 1}[t]
+                                return {None: None, 'same': w0, 'new': neww, 'acc': 1, 'missing': None}[t]
                             exp = []
                             for g in sch['adds']:
                                 eg = []
